@@ -97,8 +97,15 @@ def checkCall (tol : Nat) (x : Spec) (c : VCall) : Spec :=
      | some _, none => x.flag "C11/no-timeout-while-repeat-pending"
      | some a, some t => if timeoutOk tol (dueTimeout a.deadline x.lastTs) t then x else x.flag "C11/wrong-timeout")
   | VCall.send evs =>
-    -- C19-style legality of everything written, and the running fold
-    let x := if legal x.V evs then x else x.flag "C11/illegal-event-in-send"
+    -- the running fold; legality (a press only of a key that is up, a release only of one that is down) is
+    -- demanded of the step / release-all batches (C19 through C10 / C12), NOT of a timer chord: C11 fixes the
+    -- chord's shape and its transience only, and a Special repeat that lists a key twice legitimately
+    -- presses it twice (`dup_repeat_key_is_accepted`)
+    let x :=
+      match x.expect with
+      | Expect.sendExactly prop _ =>
+        if prop == "C11" || legal x.V evs then x else x.flag (prop ++ "/illegal-event-in-send")
+      | _ => x
     { x with V := foldEvs x.V evs }
   | _ => x
 
